@@ -8,7 +8,7 @@ def gen(rng, tier):
 
 
 globals().update(acct_prop.make(
-    'C01', coq=['Gen/PosArith.v'], gen_mods=['PosArith'], components=['trade.stock', 'views.position', 'views.account', 'flow.', 'bt.cash', 'bt.arrive', 'bt.interest', 'settle.cash'],
+    'C01', coq=['Gen/PosArith.v'], gen_mods=['PosArith'], components=['trade.stock', 'views.position', 'views.account', 'flow.', 'bt.cash', 'bt.arrive', 'bt.interest', 'bt.purge', 'settle.cash'],
     clauses=['C01.', 'C12.position_dropped', 'C12.value_before_trading', 'C12.value_settlement', 'C12.before_trading_cash'], gen=gen,
     rule=('random trading scenarios on synthetic bundles (1-3 stocks/ETF/STAR, optional futures, dividends, splits, delisting/conversion, '
           'deposits/withdrawals/financing, T+1 and reinvestment switches); a case is one recorded step of the real run (trade, flow, '
